@@ -314,6 +314,32 @@ def count_lines(calls):
     return res
 
 
+def classify(calls):
+    """Path class of each call: digest of the set of package lines it executes plus the kind of its
+    outcome. Only used to CHOOSE menu calls that cover every path (never to judge)."""
+    import hashlib
+    res = []
+    for op in calls:
+        lines = set()
+
+        def local(frame, event, arg):
+            if event == "line":
+                lines.add((frame.f_code.co_filename, frame.f_lineno))
+            return local
+
+        def glob(frame, event, arg):
+            return local if frame.f_code.co_filename.startswith(PKG_PREFIX) else None
+
+        sys.settrace(glob)
+        try:
+            out = probe.run(op)
+        finally:
+            sys.settrace(None)
+        kind = [out.get("k"), out.get("ret") if out.get("k") == "ok" else out.get("cls")]
+        res.append({"sig": hashlib.sha256(repr(sorted(lines)).encode()).hexdigest()[:12], "kind": repr(kind)})
+    return res
+
+
 _full0 = [None]
 
 
@@ -389,6 +415,8 @@ def main():
             results.append({"count": count_lines(j["calls"])})
         elif mode == "census":
             results.append({"census": census()})
+        elif mode == "classify":
+            results.append({"classes": classify(j["calls"])})
         elif mode == "history":
             results.append(run_history(j["calls"]))
         else:
